@@ -513,33 +513,35 @@ def check_eval(ck):
         ck.witness("witness.while_runs_full_bound", A[:-1] + [running])
     else:
         ck.fact("eval.while.keys", False, f"O{len(kO)} T{len(kT)} R{len(kR)} Term{len(kTerm)} Init{len(kI)} PReset{len(kP)}")
-    # average over independent episodes
-    N, T = 2, 2
-    env, pol = make("discrete", False, True)
-    tra = trace(lambda env, pol, key: average_reward(env, pol, num_episodes=N, max_steps=T, key=key), env, pol, jr.key(0), argnames=["env", "pol", "key"], label="benchmark.average_reward")
-    ck.encoded(tra)
-    ita = Interp()
-    Sa = tra.symbols(ita)
-    outa = tra.run(ita, Sa)
-    trs = trace(lambda env, pol, key: rollout_scan(env, pol, key=key, max_steps=T), env, pol, jr.key(0), argnames=["env", "pol", "key"])
-    eps = []
-    from jaxsmt.interp import ksplit
-    for e in range(N):
-        ite_ = Interp()
-        Se = dict(Sa)
-        Se["key"] = arr0(ksplit(N)(Sa["key"][()], z3.IntVal(e)))
-        eps.append(trs.run(ite_, Se)[trs.out_names[0]][()])
-    mean = (eps[0] + eps[1]) / 2
-    ck.prove("eval.mean_over_independent_episodes@N=2,T=2", [], eq_elem(outa[tra.out_names[0]][()], mean),
-             replay=lambda res: concrete.replay_outputs(tra, Sa, res, uf_apps=ita.uf_apps, oracle={tra.out_names[0]: arr0(mean)}))
-    ik = keys_of(ita, "Init")
-    ck.fact("eval.episode_keys_distinct", len(ik) == N and not ik[0].eq(ik[1]), f"initial-state keys of the episodes: {ik}")
+    # average over independent episodes (N beyond any plausible parallel-evaluation chunk, and not a multiple of a power of two: the
+    # statement's mean is the unweighted mean over all episodes however the implementation batches them)
+    for N, T in ([(2, 2), (37, 1)] + ([(131, 1)] if ck.thorough else [])):
+        env, pol = make("discrete", False, True)
+        tra = trace(lambda env, pol, key: average_reward(env, pol, num_episodes=N, max_steps=T, key=key), env, pol, jr.key(0), argnames=["env", "pol", "key"], label="benchmark.average_reward")
+        if N == 2:
+            ck.encoded(tra)
+        ita = Interp()
+        Sa = tra.symbols(ita)
+        outa = tra.run(ita, Sa)
+        trs = trace(lambda env, pol, key: rollout_scan(env, pol, key=key, max_steps=T), env, pol, jr.key(0), argnames=["env", "pol", "key"])
+        eps = []
+        from jaxsmt.interp import ksplit
+        for e in range(N):
+            ite_ = Interp()
+            Se = dict(Sa)
+            Se["key"] = arr0(ksplit(N)(Sa["key"][()], z3.IntVal(e)))
+            eps.append(trs.run(ite_, Se)[trs.out_names[0]][()])
+        mean = sum(eps[1:], eps[0]) / N
+        ck.prove(f"eval.mean_over_independent_episodes@N={N},T={T}", [], eq_elem(outa[tra.out_names[0]][()], mean),
+                 replay=lambda res, tra=tra, Sa=Sa, ita=ita, mean=mean: concrete.replay_outputs(tra, Sa, res, uf_apps=ita.uf_apps, oracle={tra.out_names[0]: arr0(mean)}))
+        ik = keys_of(ita, "Init")
+        ck.fact("eval.episode_keys_distinct" + ("" if N == 2 else f"@N={N}"), len(ik) == N and len({str(k) for k in ik}) == N, f"initial-state keys of the episodes: {ik[:4]}{'...' if N > 4 else ''}")
 
 
 def main():
     ck = Check("C19", "reported performance numbers")
     ck.mode = "REAL"
-    ck.bound(envs=2, eval_max_steps=[2, 3] if not ck.thorough else [2, 3, 4], eval_episodes=2, while_unwinding=3, alpha="symbolic in [0,1] for next(); 0.5 in the integration obligations")
+    ck.bound(envs=2, eval_max_steps=[2, 3] if not ck.thorough else [2, 3, 4], eval_episodes=[2, 37] if not ck.thorough else [2, 37, 131], while_unwinding=3, alpha="symbolic in [0,1] for next(); 0.5 in the integration obligations")
     ck.stub("environment and policy uninterpreted", "logging backend: recording stub; jax.debug.callback operands are recorded in program order", "PRNG keys: free algebra")
     ck.out("TensorBoard / W&B / console backends' own I/O", "video recording", "float rounding")
     with ck.section("next"):
